@@ -11,11 +11,11 @@ import (
 func (g *gen) verb(nargs int, explicitOK bool) string {
 	var sb strings.Builder
 	sb.WriteString("%")
-	for g.chance(25, "flag") {
+	for g.chance(15, "flag") {
 		sb.WriteString(pick(g, "flagc", "+", "-", "#", " ", "0"))
 	}
 	index := func() string {
-		switch g.intn(0, 9, "indexform") {
+		switch g.intn(0, 19, "indexform") {
 		case 0:
 			return "[0]"
 		case 1:
@@ -27,35 +27,37 @@ func (g *gen) verb(nargs int, explicitOK bool) string {
 		}
 	}
 	// width
-	switch g.intn(0, 9, "width") {
-	case 0:
+	switch w := g.intn(0, 19, "width"); {
+	case w < 2:
 		sb.WriteString(fmt.Sprint(g.intn(0, 12, "w")))
-	case 1:
+	case w < 4:
 		sb.WriteString("*")
 		g.feat("printf_star")
-	case 2:
-		if explicitOK {
-			sb.WriteString(index() + "*")
-			g.feat("printf_indexed_star")
-		}
+	case w < 6 && explicitOK:
+		sb.WriteString(index() + "*")
+		g.feat("printf_indexed_star")
 	}
 	// precision
-	switch g.intn(0, 9, "prec") {
-	case 0:
+	switch p := g.intn(0, 19, "prec"); {
+	case p < 2:
 		sb.WriteString("." + fmt.Sprint(g.intn(0, 5, "p")))
-	case 1:
+	case p < 3:
 		sb.WriteString(".*")
 		g.feat("printf_star")
-	case 2:
-		if explicitOK {
-			sb.WriteString("." + index() + "*")
-			g.feat("printf_indexed_star")
-		}
-	case 3:
+	case p < 4 && explicitOK:
+		sb.WriteString("." + index() + "*")
+		g.feat("printf_indexed_star")
+	case p < 5:
 		sb.WriteString(".")
 	}
-	letter := pick(g, "verbletter", "v", "v", "d", "d", "s", "s", "T", "t", "b", "c", "o", "O", "q", "x", "X", "U", "e", "E", "f", "F", "g", "G", "p", "w", "%", "z", "!", "y", "i", "ü", "")
-	if explicitOK && g.chance(45, "verbindex") {
+	letter := pick(g, "verbletter", "v", "v", "d", "d", "d", "s", "s", "s", "q", "x", "x", "t", "f", "f", "p", "T", "c", "w", "e", "g", "b", "o", "U", "X", "E", "F", "G", "O")
+	switch g.intn(0, 19, "oddletter") {
+	case 0:
+		letter = "%"
+	case 1:
+		letter = pick(g, "junkletter", "z", "!", "y", "i", "ü", "")
+	}
+	if explicitOK && g.chance(60, "verbindex") {
 		g.feat("printf_indexed_verb")
 		// recorded finding: an explicitly indexed verb whose argument has the wrong type makes SA5009
 		// index the argument list by the sequential position; only %[n]v (every type is right) is kept
@@ -72,22 +74,24 @@ func (g *gen) verb(nargs int, explicitOK bool) string {
 func (g *gen) format(nargs int) string {
 	var parts []string
 	nv := nargs
-	switch g.intn(0, 5, "nverbs") {
+	switch g.intn(0, 9, "nverbs") {
 	case 0:
 		nv = nargs + 1 // too few arguments
 	case 1:
 		if nargs > 0 {
 			nv = nargs - 1 // too many
 		}
+	case 2:
+		nv = nargs + 2 // several verbs share arguments (meaningful with explicit indexes)
 	}
-	explicitOK := g.chance(55, "explicit")
+	explicitOK := g.chance(50, "explicit")
 	for i := 0; i < nv; i++ {
 		parts = append(parts, g.verb(nargs, explicitOK))
 		if g.flip("text") {
 			parts = append(parts, pick(g, "fmttext", " ", "x", ": ", "%%", "\\n", "=", "100%%"))
 		}
 	}
-	if g.chance(8, "trailingpercent") {
+	if g.chance(5, "trailingpercent") {
 		parts = append(parts, "%")
 	}
 	return strings.Join(parts, "")
